@@ -475,8 +475,11 @@ def through_aggregates(fa, pl, limit=12):
             continue
         if rv["k"] == "use" and op_const(rv["op"]) is not None and not projs:
             return rv["op"]
-        if rv["k"] == "agg" and projs and projs[0] != "*" and "f" in projs[0]:
-            k = projs[0]["f"]
+        if rv["k"] == "agg" and projs and projs[0] != "*" and \
+                ("f" in projs[0] or ("ci" in projs[0] and not projs[0].get("from_end") and rv.get("agg") == "array")):
+            # member k of a tuple / struct, or element k of an array literal (`[a, b, c][k]`, as
+            # an array pattern binds it)
+            k = projs[0]["f"] if "f" in projs[0] else projs[0]["ci"]
             if k < len(rv["ops"]):
                 o = rv["ops"][k]
                 src = op_place(o)
